@@ -2,6 +2,8 @@
   C13 — context format round trip (see Wip/C13U.lean for the unified half).
 -/
 import PatchModel.Spec.Diff
+import PatchModel.Lemmas.Context
+import PatchModel.Lemmas.Unified
 namespace PatchModel.C13
 open PatchModel
 
@@ -13,11 +15,20 @@ theorem context_roundtrip (hs : List Hunk) (hne : hs ≠ []) (hw : ∀ h ∈ hs,
     ∃ hs' par', parseContextBody fuel { s := { rest := splitLines bytes }, lineNo := lineNo } [] = .ok (hs', par') ∧
       hs'.length = hs.length ∧
       (∀ i (hi : i < hs.length) (hi' : i < hs'.length), sameChange hs'[i] hs[i]) ∧
-      par'.s.rest = [] := by
-  sorry
+      par'.s.rest = [] :=
+  Context.context_roundtrip_of Unified.number_roundtrip hs hne hw bytes hb lineNo fuel hf
 
 /-- writing never fails for writable hunks, in either format -/
 theorem context_write_ok (hs : List Hunk) (hw : ∀ h ∈ hs, h.writable = true) : ∃ bytes, ctxRejectBody hs = .ok bytes := by
-  sorry
+  induction hs with
+  | nil => exact ⟨[], rfl⟩
+  | cons h hs ih =>
+    obtain ⟨hops, hoc, hnc, _⟩ := Context.writable_spec h (hw h (by simp))
+    obtain ⟨b, hb⟩ := Apply.writeHunkContext_ok h ⟨hops, hoc, hnc⟩
+    obtain ⟨rest, hr⟩ := ih (fun h' hh' => hw h' (by simp [hh']))
+    exact ⟨_, by rw [ctxRejectBody, hb, hr]⟩
 
 end PatchModel.C13
+
+#print axioms PatchModel.C13.context_roundtrip
+#print axioms PatchModel.C13.context_write_ok
